@@ -62,7 +62,7 @@ class _CallTimeout(BaseException):
 @contextlib.contextmanager
 def call_limit(seconds):
     """Per-call time limit that nests inside tqv.core.time_limit (the outer timer is re-armed with what is left)."""
-    remaining, _ = signal.getitimer(signal.ITIMER_REAL)
+    remaining, interval = signal.getitimer(signal.ITIMER_REAL)
     if remaining and remaining <= seconds:
         yield  # the enclosing case/step limit fires first anyway
         return
@@ -81,7 +81,7 @@ def call_limit(seconds):
         signal.setitimer(signal.ITIMER_REAL, 0)
         signal.signal(signal.SIGALRM, old)
         if remaining:
-            signal.setitimer(signal.ITIMER_REAL, max(remaining - (time.monotonic() - t0), 0.01))
+            signal.setitimer(signal.ITIMER_REAL, max(remaining - (time.monotonic() - t0), 0.01), interval)
 
 
 def call_value(fn, *args, **kwargs):
